@@ -10,6 +10,26 @@ OT = 'other'
 
 # id -> (level, engine, technique, text, note, design_ref)
 CHECKS = {
+    'C01': (TV, 'A', 'SMT validation of the compiled design formula against a reference semantics written from the '
+                     'documentation: F(x,aux) & not R(x) unsat, all Booleans symbolic; counterexamples decoded by the real '
+                     'decoder and forced through the real IterateSATGen file path',
+            'For each design of the generator space (fixed corpus + seeded random descriptors; T<=8/12) the clause list of '
+            'the real pipeline is proved to have only models that decode to valid sequences (trial count, levels, '
+            'derivations, crossing with weights, every constraint kind and scope, Repeat/Merge/Nest). The file each '
+            'formula strategy hands to its solver is intercepted and compared with that clause list.',
+            'Trusts the reference semantics vf/ref.py (documented rules; ambiguous corners are listed as outside), z3, and '
+            'the solver/sampler binaries to return models. The quantifier over designs is enumeration/sampling.', '6 C01'),
+    'C02': (TV, 'A+C', 'SMT soundness + completeness (definability closure for exists-aux) of the compiled formula against '
+                       'the reference; library-performed exhaustion of IterateSATGen with solver-decided set equality',
+            'Per design models(F)|x = models(R) is decided by two unsat queries; for designs with <=400/5000 solutions the '
+            'real IterateSATGen is exhausted and its raw solutions must be distinct, valid and leave R & x-not-returned unsat.',
+            'As C01; the closure procedure in vf/sat.py is checked per use (total+functional definitions by truth table/z3).',
+            '6 C02'),
+    'C03': (TV, 'A', 'SAT miter F(x,a) & F(x,a\') & a != a\' on the real compiled formula; definability closure as constructive '
+                     'cross-check; sampling-set round trip through save_cnf/parse_cnf_file',
+            'Per design the uniqueness miter over the complete formula is unsat, every auxiliary is either unit-fixed or '
+            'has a total+functional definition, and the sampling set the samplers read is exactly 1..support.',
+            'Trusts CryptoMiniSat; trial variables = 1..variables_per_sample() (C14).', '6 C03'),
     'C10': (TV, 'A', 'SMT/SAT equivalence of the real cardinality CNF against pseudo-Boolean reference; '
                      'definability closure for exists-aux; uniqueness miter',
             'For every n<=10 (thorough 20), k<=n+3, EQ/LT/GT and three variable-list shapes, the clause list from the real '
